@@ -146,7 +146,7 @@ pub fn c03(ctx: &Ctx) -> Collector {
 
 pub fn c04(ctx: &Ctx) -> Collector {
     let col = Collector::new("C04", "exploration");
-    col.set_rule("cases = S_opt (forced/automatic lattice of all four options) and S_cell (all 3840 forced cells); oracle: both 15-bit format copies read at the Figure 25 coordinates equal BCH(15,5)(level,mask) xor 0x5412 computed by R, both 18-bit version copies (v>=7) equal BCH(18,6)(v), and the ecl/mask/version/mode/size fields equal what the symbol encodes and every forced option, level defaulting to Q; non-trivial = a symbol was returned; distinct = distinct symbol matrices");
+    col.set_rule("cases = S_opt (forced/automatic lattice of all four options), S_cell (all 3840 forced cells), S_order, S_cross (forced modes less dense than the content, up to beyond the version-40 capacity of the forced mode), forced versions with and without a level, forced masks on uniform payloads; oracle: both 15-bit format copies read at the Figure 25 coordinates equal BCH(15,5)(level,mask) xor 0x5412 computed by R, both 18-bit version copies (v>=7) equal BCH(18,6)(v), and the ecl/mask/version/mode/size fields equal what the symbol encodes and every forced option, level defaulting to Q; non-trivial = a symbol was returned; distinct = distinct symbol matrices");
     col.assume(A_REF);
     let p = ["C04"];
     run_space(&col, 0, &spaces::s_opt(ctx.tier.thorough()), &p, true, &no_extra);
@@ -158,6 +158,9 @@ pub fn c04(ctx: &Ctx) -> Collector {
     run_space(&col, 6, &s_forced_versions(false), &p, true, &no_extra);
     run_space(&col, 7, &s_default_level_big(), &p, true, &no_extra);
     run_space(&col, 8, &s_forced_mask_extreme(), &p, true, &no_extra);
+    // a forced mode less dense than the content needs, up to and beyond the version-40 capacity of the forced mode
+    // (a build that "helps" by falling back to the content's own mode reports a mode the caller did not force)
+    run_space(&col, 9, &spaces::s_cross(false), &p, true, &no_extra);
     if ctx.tier.thorough() {
         run_space(&col, 3, &spaces::s_len(Family::Ctr, 7200), &p, true, &no_extra);
     }
